@@ -95,8 +95,12 @@ def run(prop, tier, seed, replay):
             expect.append(("members", groups))
             path.unlink()
         # ---- Configuration <-> YAML -------------------------------------------------------------------
-        for ci in range(n_cases):
-            p = rand_params(rng, ci)
+        # fixed stratum: limits for which exp(log(1 + z)) - 1 / the comoving inversion do not reproduce z exactly
+        fixed = [dict(rmin=100, rmax=1000, zmin=zmin, zmax=zmax, num_bins=nb, method=meth, closed=cl)
+                 for (zmin, zmax, nb) in ((0.1, 1.0, 5), (0.474, 1.35, 6), (0.07, 1.41, 3), (0.3, 2.0, 7))
+                 for meth in ("logspace", "comoving") for cl in ("right", "left")]
+        for ci in range(n_cases + len(fixed)):
+            p = rand_params(rng, ci) if ci < n_cases else fixed[ci - n_cases]
             cfg = Configuration.create(**p)
             path = root / f"cfg{ci}.yml"
             rep = {"kind": "config", "params": p}
